@@ -197,11 +197,17 @@ def coef(ctx, J, eps):
     _cache = ctx._rs_cache
     if J <= _cache[0] and eps >= _cache[1]:
         return _cache[2], _cache[3]
+    # the coefficients are computed in the mp context whatever context is
+    # calling; shield that computation from mp's own settings and put
+    # them back afterwards
     orig = ctx._mp.prec
+    trap = ctx._mp.trap_complex
     try:
+        ctx._mp.trap_complex = False
         data = _coef(ctx._mp, J, eps)
     finally:
         ctx._mp.prec = orig
+        ctx._mp.trap_complex = trap
     if ctx is not ctx._mp:
         data[2] = dict((k,ctx.convert(v)) for (k,v) in data[2].items())
         data[3] = dict((k,ctx.convert(v)) for (k,v) in data[3].items())
